@@ -6,6 +6,8 @@ import copy
 import dataclasses
 import itertools
 import re
+import textwrap
+import types
 from typing import Any
 
 from jinja2 import nodes
@@ -171,6 +173,20 @@ def _fold_expr(c: nodes.Node) -> nodes.Node:
         l, r = _fold_expr(c.left), _fold_expr(c.right)
         if isinstance(l, nodes.Const):
             return (r if l.value else l) if isinstance(c, nodes.And) else (l if l.value else r)
+    if isinstance(c, (nodes.Getattr, nodes.Getitem)):
+        # an entry of a dict the template spells out (a row of a literal table once the row stands where the loop variable stood):
+        # `row["k"]` is the entry; `row.k` is the entry unless dict itself has an attribute k (Jinja looks at attributes first)
+        d = _fold_expr(c.node)
+        key = c.attr if isinstance(c, nodes.Getattr) else (c.arg.value if isinstance(c.arg, nodes.Const) else None)
+        if isinstance(d, nodes.Dict) and isinstance(key, str) and not (isinstance(c, nodes.Getattr) and hasattr(dict, key)):
+            hits = [p.value for p in d.items if isinstance(p.key, nodes.Const) and p.key.value == key]
+            if hits and all(isinstance(p.key, nodes.Const) for p in d.items):
+                return _fold_expr(hits[-1])
+    if isinstance(c, nodes.Concat):
+        # `a ~ b` over literal texts / integers is the text written out
+        parts = [_fold_expr(x) for x in c.nodes]
+        if all(isinstance(x, nodes.Const) and isinstance(x.value, (str, int)) and not isinstance(x.value, bool) for x in parts):
+            return nodes.Const("".join(str(x.value) for x in parts), lineno=c.lineno)
     return c
 
 
@@ -273,9 +289,11 @@ def _inline_macros(body: "list[nodes.Node]", resolve: Any, depth: int = 2) -> "l
 
 def _literal_elements(it: nodes.Node) -> "list[nodes.Node] | None":
     """the elements of a literal list / tuple whose elements are constants, names or displays of those (evaluating them has no effect and
-    gives the same value every time: reading the element where the loop variable is read is the same program)"""
+    gives the same value every time: reading the element where the loop variable is read is the same program); a dict display with
+    constant keys is such an element too (a row of a table: `row.k` / `row["k"]` then reads as the entry, _fold_expr)"""
     def plain(e: nodes.Node) -> bool:
-        return isinstance(e, (nodes.Const, nodes.Name)) or (isinstance(e, (nodes.Tuple, nodes.List)) and all(plain(x) for x in e.items))
+        return isinstance(e, (nodes.Const, nodes.Name)) or (isinstance(e, (nodes.Tuple, nodes.List)) and all(plain(x) for x in e.items)) \
+            or (isinstance(e, nodes.Dict) and all(isinstance(p.key, nodes.Const) and plain(p.value) for p in e.items))
 
     return list(it.items) if isinstance(it, (nodes.List, nodes.Tuple)) and it.items and all(plain(x) for x in it.items) else None
 
@@ -304,17 +322,49 @@ def _subst_loop(n: nodes.Node, attrs: "dict[str, Any]") -> bool:
     return ok
 
 
-def _unroll(body: "list[nodes.Node]", depth: int = 3) -> "list[nodes.Node]":
+def _table_names(tree: nodes.Node) -> "set[str]":
+    """names a template binds exactly once, by a `set` statement, and in no other way (no second `set`, no loop / `with` / import
+    target, no macro or call-block parameter of that name): wherever such a name is read after the `set`, it reads that one value"""
+    count: dict[str, int] = {}
+    for a in tree.find_all(nodes.Assign):
+        for t in ([a.target] if isinstance(a.target, nodes.Name) else list(a.target.find_all(nodes.Name))):
+            count[t.name] = count.get(t.name, 0) + 1
+    other: set[str] = set()
+    for n in tree.find_all((nodes.For, nodes.With, nodes.Macro, nodes.CallBlock, nodes.AssignBlock, nodes.Import, nodes.FromImport)):
+        if isinstance(n, nodes.For):
+            other |= {x.name for x in n.target.find_all(nodes.Name)} | ({n.target.name} if isinstance(n.target, nodes.Name) else set())
+        elif isinstance(n, nodes.With):
+            other |= {x.name for t in n.targets for x in ([t] if isinstance(t, nodes.Name) else t.find_all(nodes.Name))}
+        elif isinstance(n, (nodes.Macro, nodes.CallBlock)):
+            other |= {a.name for a in n.args} | ({n.name} if isinstance(n, nodes.Macro) else set())
+        elif isinstance(n, nodes.AssignBlock):
+            other |= {x.name for x in ([n.target] if isinstance(n.target, nodes.Name) else n.target.find_all(nodes.Name))}
+        elif isinstance(n, nodes.Import):
+            other.add(n.target)
+        else:
+            other |= {(nm if isinstance(nm, str) else nm[1]) for nm in n.names}
+    return {k for k, v in count.items() if v == 1 and k not in other}
+
+
+def _unroll(body: "list[nodes.Node]", depth: int = 3, tables: "dict[str, nodes.Node] | None" = None, single: "set[str] | None" = None) -> "list[nodes.Node]":
     """The template body with every `for` over a literal list / tuple (of constants, names, displays of those; no `else`, not recursive)
     replaced by its rounds written out: in each round the loop variables read as the round's element, `loop.first / last / index /
     index0 / length` as their values, a `set` variable of the round whose definition has become a literal as that literal (_fold: a
     conditional over a literal is the arm it selects, a literal that is emitted is template text).  A loop filter stays as an `if`
     around the round (then `loop.*` is not known and, if read, the loop stays).  Writing n similar pieces of a template as one loop over
-    a table of their differences renders the same text, so rules about what is emitted read the rounds."""
+    a table of their differences renders the same text, so rules about what is emitted read the rounds.
+    single (given for the template's own body only): the names the template binds once (_table_names) - a loop over such a name, after
+    the top-level `set` that binds it to a literal table, is the loop over that table (macros inlined before: _inline_macros)."""
     out: list[nodes.Node] = []
+    top = single is not None       # the template's own body: its `set` statements are passed in order
+    tables = {} if tables is None else tables
     for n in body:
-        if isinstance(n, nodes.For) and depth > 0 and not n.else_ and not n.recursive and _literal_elements(n.iter) is not None:
-            elems = _literal_elements(n.iter) or []
+        if top and isinstance(n, nodes.Assign) and isinstance(n.target, nodes.Name) and n.target.name in (single or ()) \
+                and _literal_elements(n.node) is not None:
+            tables[n.target.name] = n.node
+        it_ = tables.get(n.iter.name, n.iter) if isinstance(n, nodes.For) and isinstance(n.iter, nodes.Name) else getattr(n, "iter", None)
+        if isinstance(n, nodes.For) and depth > 0 and not n.else_ and not n.recursive and _literal_elements(it_) is not None:
+            elems = _literal_elements(it_) or []
             targets = [n.target] if isinstance(n.target, nodes.Name) else list(n.target.items) if isinstance(n.target, nodes.Tuple) else None
             rounds: "list[nodes.Node] | None" = [] if targets is not None and all(isinstance(t, nodes.Name) for t in targets) else None
             for i, el in enumerate(elems):
@@ -353,19 +403,19 @@ def _unroll(body: "list[nodes.Node]", depth: int = 3) -> "list[nodes.Node]":
                     wrap = nodes.Scope([nodes.Output([test])])
                     _subst(wrap, binding)
                     done = [nodes.If(wrap.body[0].nodes[0], done, [], [], lineno=n.lineno)]
-                rounds += _unroll(_fold(done), depth - 1)
+                rounds += _unroll(_fold(done), depth - 1, tables)
             if rounds is not None:
                 out += rounds
                 continue
         n2 = copy.copy(n)
         for fld in ("body", "else_"):
             if isinstance(getattr(n, fld, None), list):
-                setattr(n2, fld, _unroll(getattr(n, fld), depth))
+                setattr(n2, fld, _unroll(getattr(n, fld), depth, tables))
         if isinstance(n, nodes.If):
             n2.elif_ = []
             for el in n.elif_:
                 el2 = copy.copy(el)
-                el2.body = _unroll(el.body, depth)
+                el2.body = _unroll(el.body, depth, tables)
                 n2.elif_.append(el2)
         out.append(n2)
     return out
@@ -391,6 +441,53 @@ def _generated_module(jx: Any, template: str) -> "ast.Module | None":
         return ast.parse(text)
     except (SyntaxError, ValueError):
         return None
+
+
+def _expanded_functions(jx: Any, template: str) -> "dict[str, list[ast.AST]]":
+    """The functions a template writes, per class, read on the expanded template (macros of the template and macros imported by name
+    inlined with their arguments, loops over literal tables written out round by round, literals folded into the text; an output
+    expression that stays is a placeholder): the text is cut at every `def` / `async def` line, the function is the shortest run of
+    lines from there, ending in front of a line indented no deeper than the `def`, that is one function definition in Python; its class
+    is the last `class <Name>` line at column 0 before it ("" when none).  Text that is no Python between the functions (docstring
+    macros, attribute declarations written through filters) is passed over; both arms of a condition stand one after the other."""
+    ti = jx.templates[template]
+    imported: dict[str, tuple[str, str]] = {}
+    for imp in ti.tree.find_all(nodes.FromImport):
+        if isinstance(imp.template, nodes.Const) and isinstance(imp.template.value, str):
+            for nm in imp.names:
+                src, alias = nm if isinstance(nm, tuple) else (nm, nm)
+                imported[alias] = (imp.template.value, src)
+
+    def resolve(name: str) -> "nodes.Macro | None":
+        if name in ti.macros:
+            return ti.macros[name]
+        t2 = jx.templates.get(imported[name][0]) if name in imported else None
+        return t2.macros.get(imported[name][1]) if t2 is not None else None
+
+    single = _table_names(ti.tree)
+    body = _unroll(_inline_macros(_unroll(ti.tree.body, single=single), resolve), single=single)
+    text = "".join(f.text if f.kind == "data" else "__expr__" for f in tplq.frags(body))
+    lines = text.split("\n")
+    out: dict[str, list[ast.AST]] = {}
+    klass = ""
+    for i, ln in enumerate(lines):
+        mc = re.match(r"class[ \t]+(\w+)", ln)
+        if mc:
+            klass = mc.group(1)
+        mh = re.match(r"([ \t]*)(?:async[ \t]+def|def)[ \t]+\w+[ \t]*\(", ln)
+        if not mh:
+            continue
+        ind = len(mh.group(1).expandtabs())
+        ends = [j for j in range(i + 1, len(lines)) if lines[j].strip() and len(lines[j]) - len(lines[j].lstrip()) <= ind] + [len(lines)]
+        for end in ends:
+            try:
+                mod = ast.parse(textwrap.dedent("\n".join(lines[i:end])))
+            except (SyntaxError, ValueError):
+                continue
+            if len(mod.body) == 1 and isinstance(mod.body[0], (ast.FunctionDef, ast.AsyncFunctionDef)):
+                out.setdefault(klass, []).append(mod.body[0])
+                break
+    return out
 
 
 def _call_signature(c: ast.Call, lc: Locals) -> "dict[str, str]":
@@ -1675,18 +1772,32 @@ def run(rep: Report, ctx: Any) -> str:
     rep.rule("R04.11", "in every class client.py.jinja writes, httpx.AsyncClient(...) is constructed with exactly the arguments (names and "
                        "values, ** expansions included) httpx.Client(...) is constructed with")
     rep.require("client.py.jinja" in jx.templates, "client.py.jinja")
+    # Two readers of the template, the first that finds a transport being built is used: the skeleton (the module laid out with holes),
+    # and the expanded template cut into its functions (which also reads a class whose methods are written by a loop over a table of
+    # literal rows: the rows' texts are folded into the function text).
     cmod = _generated_module(jx, "client.py.jinja")
-    rep.require(cmod is not None, "the module client.py.jinja writes, as Python")
-    n_transports = 0
-    for kls in [n for n in cmod.body if isinstance(n, ast.ClassDef)]:
-        built: dict[str, list[dict[str, str]]] = {}
-        for m in [x for x in ast.walk(kls) if isinstance(x, (ast.FunctionDef, ast.AsyncFunctionDef))]:
+    by_class: dict[str, list[ast.AST]] = {}
+    if cmod is not None:
+        by_class = {k.name: [x for x in ast.walk(k) if isinstance(x, (ast.FunctionDef, ast.AsyncFunctionDef))] for k in cmod.body if isinstance(k, ast.ClassDef)}
+
+    def transports(fns: "list[ast.AST]") -> "dict[str, list[dict[str, str]]]":
+        got: dict[str, list[dict[str, str]]] = {}
+        for m in fns:
             lc_m = Locals(m)
             for c in calls_in(m):
                 if call_name(c) in ("httpx.Client", "httpx.AsyncClient"):
                     sig = _call_signature(c, lc_m)
-                    if sig not in built.setdefault(call_name(c), []):
-                        built[call_name(c)].append(sig)
+                    if sig not in got.setdefault(call_name(c), []):
+                        got[call_name(c)].append(sig)
+        return got
+
+    if not any(transports(fns) for fns in by_class.values()):
+        by_class = _expanded_functions(jx, "client.py.jinja")
+    rep.require(any(transports(fns) for fns in by_class.values()), "a class of client.py.jinja that builds an httpx client, readable as Python")
+    n_transports = 0
+    for kls_name, fns in by_class.items():
+        kls = types.SimpleNamespace(name=kls_name)
+        built = transports(fns)
         if not built:
             continue
         n_transports += 1
